@@ -25,7 +25,8 @@ impl Prop for C10 {
         }
         let k = Knobs {
             configs: (1, 1),
-            modes: (1, 3),
+            modes: (1, 4),
+            max_transitions: 4,
             patterns: (1, 4),
             lookahead_pct: gen::draw_lookahead_pct(rng),
             inputs: (1, 2),
